@@ -93,6 +93,14 @@ FLine(r) ==
                (a[i].k = "loop" /\ (a[i].pos # b[i].pos \/ ~ParamsEq(a[i].stack, b[i].stack)))
          THEN {<<"C12", r.id, ri, "across", "events-changed-by-a-later-evaluation">>} ELSE {} : ri \in Idx(r.runs)}
   \cup
+  \* ... and TryEval's events are as intact for a late reader as Eval's
+  UNION {LET a == r.runs[ri].tryon.evs  b == r.runs[ri].trybuf.evs IN
+         IF IsPanic(r.runs[ri].tryon.res) THEN {} ELSE
+         IF Len(a) # Len(b) \/ \E i \in Idx(a) : a[i].k # b[i].k \/
+               (a[i].k = "op" /\ (a[i].n # b[i].n \/ ~ParamsEq(a[i].ps, b[i].ps) \/ ~OutcomeEq(a[i].r, b[i].r))) \/
+               (a[i].k = "loop" /\ (a[i].pos # b[i].pos \/ ~ParamsEq(a[i].stack, b[i].stack)))
+         THEN {<<"C12", r.id, ri, "try-buffered", "tryeval-events-read-later-differ">>} ELSE {} : ri \in Idx(r.runs)}
+  \cup
   \* a LOOP event announces the node at its position of the (exported) program
   (IF ~r.on.hasprog THEN {} ELSE
    UNION {LET lp == Loops(r.runs[ri].sync.evs) \o Loops(r.runs[ri].tryon.evs)  N == r.on.prog.nodes IN
